@@ -53,4 +53,18 @@ PROPERTIES = {
              'Four genuine defects found while building this check were repaired (fix: commits).',
         not_decided=['idempotence / round trip as theorems (they depend on ipaddress, the idna codec and the composition of all lemmas): bounded only'],
     ),
+    'C17': dict(
+        modules=['ftp'], level='proof',
+        claim='Command.to_bytes returns one line [^\\r\\n]*\\r\\n without NUL for every name/argument text, or raises ProtocolError (a per-URL error); '
+              'ControlStream.write_command puts exactly that one line on the wire and reports the same bytes; Reply.parse (regex translated with Python\'s '
+              'backtracking priorities) completes a reply exactly on a line "NNN<space>..." and takes the code from it; read_reply consumes whole lines only, '
+              'reports exactly what it consumed, and returns after the first code line -- a function of the line sequence, hence independent of the '
+              'segmentation below readline; Commander.read_stream returns normally only after DataStream.read_file saw EOF and a 226 reply was READ '
+              'from the control stream (ghost reply counter), in that order; login/PASV/SIZE/REST sequences raise only protocol/network/server errors.',
+        note='assumed: Connection.readline returns the bytes up to and including the next LF (segmentation below it is asyncio\'s), Connection.write appends; '
+             'DataStream.read_file reads to EOF; str.encode("utf-8") is a homomorphism on concatenation and ASCII-transparent; bytes.splitlines of one clean '
+             'line is that line; @close_stream_on_error is transparent for the wire ghosts. One genuine defect (CR/LF/NUL injection through '
+             'percent-decoded URL text) was found by Command.to_bytes/ensures:one-line and repaired (fix: commit).',
+        not_decided=['ftp/client.py Session (start/_log_in/_fetch_size) is not under contract yet: its commands all pass through Command.to_bytes'],
+    ),
 }
